@@ -79,7 +79,9 @@ CLAIMS.update({
     'C08': dict(
         text=('Theorems C08_freshen (after a 304 the store holds the merged entry with the stored status/body and the instants of this exchange), '
               'C08_merged_fields (field-by-field characterisation of the merge), C08_replace (StoreResponse writes entry and index, keeps the other '
-              'references), C08_index_no_loss, C08_index_unique, C08_background_uses_current_index, C08_background_replaces_own_reference. '
+              'references), C08_index_no_loss, C08_index_unique, C08_background_uses_current_index, C08_background_replaces_own_reference, '
+              'C08_date_codec (http.ParseTime reads back what http.TimeFormat writes, for every second 1970-9999), C08_missing_date_is_receipt / '
+              'C08_usable_date_kept (FixDateHeader). '
               'Monitor mon_C08 checks write-back contents/instants and index frames on the real store each run.'),
         note=COMMON_NOTE),
     'C19': dict(
